@@ -137,7 +137,9 @@ def build_dimension(case, prune_key="prune"):
 
 def gen_case(rnd):
     n = rnd.choice([1, 2, 2, 3, 3, 4])
-    cats = [dict(id=i + 1, missing=rnd.random() < 0.2) for i in range(n)]
+    # category ids need not be ascending in payload order
+    idpool = list(range(1, n + 1)) if rnd.random() < 0.5 else rnd.sample(range(1, 10), n)
+    cats = [dict(id=idpool[i], missing=rnd.random() < 0.2) for i in range(n)]
     if all(c["missing"] for c in cats):
         cats[rnd.randrange(n)]["missing"] = False
     ids = [c["id"] for c in cats]
@@ -266,7 +268,6 @@ class AnchoringLemma(Contract):
         px, py, pa = B.integer("pos_x", 0, n), B.integer("pos_y", 0, n), B.integer("pos_a", 0, n)
         ix, iy = B.integer("idx_x", 0, n), B.integer("idx_y", 0, n)
         ds, dt = B.integer("def_s", 0, S), B.integer("def_t", 0, S)
-        B.c.assume(B.np.__dict__ and True)
 
         def lt(k1, k2):
             (a1, b1, c1), (a2, b2, c2) = k1, k2
